@@ -7,6 +7,7 @@ import (
 	"go/constant"
 	"go/token"
 	"go/types"
+	"os"
 	"reflect"
 	"sort"
 	"strings"
@@ -276,6 +277,67 @@ func ruleCodec(c *Ctx) {
 		}
 		c.check(m && u, "scalar|"+typeName(n), c.pos(n.Obj().Pos()), "", typeName(n)+" has MarshalYAML and UnmarshalYAML", fmt.Sprintf("%s has MarshalYAML=%v UnmarshalYAML=%v: one direction falls back to yaml.v3's default struct/number encoding, so a printed value does not read back", typeName(n), m, u))
 	}
+	c.checkYamlNodesAreStrings()
+	c.checkDecodersKeepWhatTheyRead()
+	// printer / reader pairs: read(print(x)) == x for every constant of the enum, decided by folding both; when a pair
+	// folds, how its tables are built and who looks them up no longer matters
+	roundTrip := map[string]bool{} // "pkg.inverseTable" / "pkg.Fn|table" keys decided this way
+	for _, pr := range []struct {
+		pkg, enumType, printer, reader string
+		skip                           []string
+		keys                           []string
+	}{
+		{"note", "CoerceDegreeName", "CoerceDegreeName.String", "NewCoerceDegree", []string{"UnknownCoerceDegreeName"}, []string{"note.coerceDegreeNameStringMap", "note.CoerceDegreeName.String|table", "note.NewCoerceDegree|table"}},
+		{"op", "DynamicSign", "DynamicSign.String", "NewDynamicSign", []string{"UnknownDynamicSign"}, []string{"op.dynamicSignStringMap", "op.DynamicSign.String|table", "op.NewDynamicSign|table"}},
+		{"op", "Accidental", "Accidental.String", "NewAccidental", []string{"UnknownAccidental"}, []string{"op.stringAccidentalMap", "op.Accidental.String|table", "op.NewAccidental|table"}},
+		{"note", "Name", "Name.String", "NewName", []string{"UnknownName"}, []string{"note.stringNameMap", "note.Name.String|table", "note.NewName|table"}},
+	} {
+		pf, rf := c.fn(pr.pkg, pr.printer), c.fn(pr.pkg, pr.reader)
+		if pf == nil || rf == nil || len(pf.Params) != 1 || len(rf.Params) != 1 {
+			continue
+		}
+		enum := c.enumConsts(pr.pkg, pr.enumType)
+		problem := ""
+		okAll := len(enum) > 0
+		texts := map[string]string{}
+		for _, name := range sortedKeys(enum) {
+			skipped := false
+			for _, sk := range pr.skip {
+				skipped = skipped || sk == name
+			}
+			if skipped {
+				continue
+			}
+			k := enum[name]
+			pv, err := c.newFolder().foldCall(pf, []fval{{k: constant.MakeInt64(k), t: pf.Params[0].Type()}})
+			if err != nil || pv.k == nil || pv.k.Kind() != constant.String {
+				okAll = false
+				break
+			}
+			text := constant.StringVal(pv.k)
+			rv, err := c.newFolder().foldCall(rf, []fval{{k: pv.k, t: rf.Params[0].Type()}})
+			if err != nil || rv.k == nil || rv.k.Kind() != constant.Int {
+				okAll = false
+				break
+			}
+			back, _ := constant.Int64Val(rv.k)
+			if back != k {
+				problem = fmt.Sprintf("%s prints as %q, which is read back as %s", name, text, c.constName(pf.Params[0].Type(), rv.k))
+			}
+			if prev, dup := texts[text]; dup {
+				problem = fmt.Sprintf("%s and %s both print as %q", prev, name, text)
+			}
+			texts[text] = name
+		}
+		if !okAll {
+			continue
+		}
+		c.site(1)
+		c.check(problem == "", pr.pkg+"."+pr.enumType+"|round-trip", c.pos(pf.Pos()), fname(pf), fmt.Sprintf("read(print(x)) = x for all %d constants (folded)", len(texts)), pr.pkg+"."+pr.enumType+": "+problem+": a printed value does not read back")
+		for _, k := range pr.keys {
+			roundTrip[k] = true
+		}
+	}
 	// inverse tables are built from their forward tables
 	for _, inv := range []struct{ pkg, inverse, forward string }{
 		{"note", "coerceDegreeNameStringMap", "stringCoerceDegreeNameMap"},
@@ -286,6 +348,10 @@ func ruleCodec(c *Ctx) {
 		c.site(1)
 		key := inv.pkg + "." + inv.inverse
 		g := c.ssapkg(inv.pkg).Var(inv.inverse)
+		if roundTrip[key] && g == nil {
+			c.ok(key, "", "", "decided by the round trip of the printer / reader pair")
+			continue
+		}
 		if g == nil {
 			c.missing(key)
 			continue
@@ -326,7 +392,7 @@ func ruleCodec(c *Ctx) {
 			c.missing(u.pkg + "." + u.fn)
 			continue
 		}
-		usesTable := false
+		usesTable := roundTrip[key]
 		allInstrs(fn, func(in ssa.Instruction) {
 			if lk, ok := in.(*ssa.Lookup); ok {
 				if ld, ok := lk.X.(*ssa.UnOp); ok {
@@ -401,8 +467,40 @@ func ruleCodec(c *Ctx) {
 		}
 		c.check(good, fname(fn), c.pos(fn.Pos()), fname(fn), "mark then number", "Degree.String is no longer `<mark><number>`")
 	}
-	// Rat: separator and the Denom == 1 convention
-	if fn := c.fn("util", "Rat.String"); fn != nil {
+	// Rat: separator and the Denom == 1 convention; by folding on a grid of values when the printer folds
+	ratFolded := false
+	if fn := c.fn("util", "Rat.String"); fn != nil && len(fn.Params) == 1 {
+		problem := ""
+		n := 0
+		ratFolded = true
+		grid := []int64{0, 1, 2, 3, 4, 7, 8, 10, 12, 16, 100, 128, 255, 256, 65536, 4294967296}
+		for _, num := range grid {
+			for _, den := range grid {
+				recv := structFval(map[string]fval{"Num": {k: constant.MakeInt64(num), t: types.Typ[types.Uint]}, "Denom": {k: constant.MakeInt64(den), t: types.Typ[types.Uint]}})
+				r, err := c.newFolder().foldCall(fn, []fval{recv})
+				if err != nil || r.k == nil || r.k.Kind() != constant.String {
+					ratFolded = false
+					break
+				}
+				n++
+				want := fmt.Sprintf("%d/%d", num, den)
+				if den == 1 {
+					want = fmt.Sprint(num)
+				}
+				if got := constant.StringVal(r.k); got != want && problem == "" {
+					problem = fmt.Sprintf("%d over %d prints as %q, want %q (numerator first, `/`, the bare number for a denominator of 1: that is what ParseRat reads)", num, den, got, want)
+				}
+			}
+			if !ratFolded {
+				break
+			}
+		}
+		if ratFolded {
+			c.site(1)
+			c.check(problem == "", fname(fn), c.pos(fn.Pos()), fname(fn), fmt.Sprintf("Num/Denom, Denom 1 printed as Num (folded on %d values)", n), "Rat.String: "+problem)
+		}
+	}
+	if fn := c.fn("util", "Rat.String"); fn != nil && !ratFolded {
 		c.site(1)
 		sep := false
 		one := false
@@ -791,7 +889,12 @@ func ruleScaleWire(c *Ctx) {
 				return
 			}
 			c.site(1)
-			inS, shS := classifyG(append(guardsOf(st.Block(), lval{nil, fn, nil}), a.conds...))
+			// `x.Accidental = Natural` first and the altered value over it afterwards: the first holds where the second does not run
+			later, simple := overwrittenUnless(st, lval{nil, fn, nil})
+			if !simple {
+				later = nil
+			}
+			inS, shS := classifyG(append(append(guardsOf(st.Block(), lval{nil, fn, nil}), a.conds...), later...))
 			w, known := want[k]
 			got[k] = true
 			good := known && inS == w[0] && (w[1] == "?" || shS == w[1])
@@ -975,11 +1078,50 @@ func ruleCircleWire(c *Ctx) {
 	// Circle.Index: all slots, membership by Keys().In(key), returns the slot index
 	if fn := c.fn("op", "Circle.Index"); fn != nil {
 		c.site(1)
-		in := firstCall(fn, staticOf("util.Set.In"))
+		// the membership test: Keys().In(key), or the comma-ok of Get(key), of the member in slot i
+		var in ssa.CallInstruction
+		var member ssa.Value
+		for _, ci := range callsIn(fn) {
+			args := ci.Common().Args
+			switch calleeName(ci.Common()) {
+			case "util.Set.In":
+				if kc, ok := args[0].(*ssa.Call); ok && calleeName(&kc.Call) == "op.CircleMember.Keys" && len(args) == 2 && args[1] == ssa.Value(fn.Params[1]) {
+					in, member = ci, kc.Call.Args[0]
+				}
+			case "op.CircleMember.Get":
+				if len(args) == 2 && args[1] == ssa.Value(fn.Params[1]) {
+					in, member = ci, args[0]
+				}
+			}
+		}
 		good := in != nil && inLoop(in.Block())
 		if good {
 			l := enclosingRangeLoop(in.Block())
 			good = l != nil
+			if good {
+				// ... of the member at the loop index
+				at, isAt := member.(*ssa.Call)
+				good = isAt && calleeName(&at.Call) == "util.Ring.At" && at.Call.Args[1] == l.index
+			}
+			if good {
+				// ... and it decides the hit
+				decides := false
+				for _, r := range returnsOf(fn) {
+					if b, ok := constBool(r.Results[1]); !ok || !b {
+						continue
+					}
+					for _, g := range guardsOf(r.Block(), lval{nil, fn, nil}) {
+						v := g.cond.v
+						if ex, ok := v.(*ssa.Extract); ok && ex.Index == 1 {
+							v = ex.Tuple
+						}
+						if v == in.Value() && g.want {
+							decides = true
+						}
+					}
+				}
+				good = decides
+			}
 			if good {
 				bc, ok := l.bound.(*ssa.Call)
 				good = ok && calleeName(&bc.Call) == "util.Ring.Len"
@@ -1156,6 +1298,12 @@ func ruleAddDegree(c *Ctx) {
 	for k, v := range acc {
 		accName[v] = k
 	}
+	// the whole function on its whole domain, by folding, when it folds: how the spellings are enumerated no longer matters
+	if problem, calls, ok := c.addDegreeByFolding(fn); ok {
+		c.site(1)
+		c.check(problem == "", name+"|domain", c.pos(fn.Pos()), name, fmt.Sprintf("%d calls (21 spellings x every interval 0..16 of every quality x both preferences) folded: natural spelling when there is one, else the preferred accidental; octave = floor(sum / 12); invalid intervals refused", calls), name+": "+problem)
+		c.addDegreeFolded = true
+	}
 	// preference lists: every constant list of accidentals built in AddDegree (or in a helper it calls), with the value of
 	// precedeSharp under which it is built (a variadic call per branch, or a helper that returns the order)
 	n := 0
@@ -1204,7 +1352,7 @@ func ruleAddDegree(c *Ctx) {
 			c.check(found && strings.Join(names, ",") == want, fmt.Sprintf("%s|prefer|sharp=%v", name, side), c.pos(sl.Pos()), name, fmt.Sprintf("precedeSharp=%v tries %v", side, names), fmt.Sprintf("with precedeSharp=%v the spellings are tried in the order %v, want %s (natural when possible, otherwise the requested accidental)", side, names, want))
 		})
 	}
-	if n != 2 {
+	if n != 2 && !c.addDegreeFolded {
 		c.bad(name+"|prefer", c.pos(fn.Pos()), name, fmt.Sprintf("%d preference lists found, want one per value of precedeSharp", n))
 	}
 	// pitch = n.Semitone() + d.Semitone(), split by WithoutOctave / Octave
@@ -1318,7 +1466,6 @@ func (c *Ctx) ringAtByFolding(fn *ssa.Function) (string, bool) {
 	return "", true
 }
 
-
 // octaveSplitByFolding folds Semitone.Octave (quo=true) or Semitone.WithoutOctave on -24..200.
 func (c *Ctx) octaveSplitByFolding(f *ssa.Function, quo bool) (string, bool) {
 	for sv := int64(-24); sv <= 200; sv++ {
@@ -1349,7 +1496,6 @@ func (c *Ctx) octaveSplitByFolding(f *ssa.Function, quo bool) (string, bool) {
 	}
 	return "", true
 }
-
 
 // shapePreservingMarshal: every return of T.MarshalYAML yields T's own underlying map type or a *yaml.Node (built as a
 // mapping when T is a map): what is printed has the shape the default decoder of T expects, no UnmarshalYAML is needed.
@@ -1410,4 +1556,203 @@ func (c *Ctx) shapePreservingMarshal(n *types.Named) bool {
 		return false
 	}
 	return true
+}
+
+// addDegreeByFolding decides note.Note.AddDegree on 21 spellings x (every quality and the unknown one) x numbers 0..16 x
+// both preferences by folding: the sum of root and interval is spelled with a natural when its pitch class has one,
+// otherwise with a sharp on the letter below (precedeSharp) or a flat on the letter above; the octave is floor(sum/12);
+// an invalid interval is refused. ok=false when the function does not fold.
+func (c *Ctx) addDegreeByFolding(fn *ssa.Function) (string, int, bool) {
+	if len(fn.Params) != 3 {
+		return "", 0, false
+	}
+	names := c.enumConsts("note", "Name")
+	accs := c.enumConsts("note", "Accidental")
+	dnames := c.enumConsts("note", "DegreeName")
+	nameOf, accOf := map[int64]string{}, map[int64]string{}
+	for k, v := range names {
+		nameOf[v] = k
+	}
+	for k, v := range accs {
+		accOf[v] = k
+	}
+	accSemi := map[string]int{"Natural": 0, "Sharp": 1, "Flat": -1}
+	white := map[int]string{}
+	for _, l := range specLetters {
+		white[specNatural(l)] = l
+	}
+	n := 0
+	for _, l := range specLetters {
+		for _, a := range []string{"Natural", "Sharp", "Flat"} {
+			for _, dn := range sortedKeys(dnames) {
+				q, known := degreeNameQuality[dn]
+				for num := 0; num <= 16; num++ {
+					size, valid := 0, false
+					if known {
+						size, valid = specSize(num, q)
+					}
+					for _, sharp := range []bool{false, true} {
+						recv := fval{fields: map[string]fval{"Name": {k: constant.MakeInt64(names[l])}, "Accidental": {k: constant.MakeInt64(accs[a])}}}
+						d := fval{fields: map[string]fval{"Name": {k: constant.MakeInt64(dnames[dn])}, "Value": {k: constant.MakeInt64(int64(num))}}}
+						r, err := c.newFolder().foldCall(fn, []fval{recv, d, {k: constant.MakeBool(sharp)}})
+						if err != nil || len(r.tuple) != 3 || !(r.tuple[2].isNil || r.tuple[2].nonNil) {
+							if os.Getenv("CRDCHECK_DEBUG") != "" {
+								fmt.Fprintf(os.Stderr, "addDegreeByFolding: %s %s + %s %d does not fold: %v %v\n", l, a, dn, num, err, r)
+							}
+							return "", 0, false
+						}
+						n++
+						what := fmt.Sprintf("%s%s + %s %d (sharp preferred=%v)", l, accSemi2(a), strings.TrimSuffix(dn, "Degree"), num, sharp)
+						succeeded := r.tuple[2].isNil
+						if succeeded != valid {
+							if valid {
+								return what + ": refused, although the interval is valid", n, true
+							}
+							return what + ": accepted, although there is no such interval", n, true
+						}
+						if !valid {
+							continue
+						}
+						sum := specNatural(l) + accSemi[a] + size
+						pc := ((sum % 12) + 12) % 12
+						oct := (sum - pc) / 12
+						wl, wa := "", "Natural"
+						if w, isWhite := white[pc]; isWhite {
+							wl = w
+						} else if sharp {
+							wl, wa = white[pc-1], "Sharp"
+						} else {
+							wl, wa = white[pc+1], "Flat"
+						}
+						nt := r.tuple[0]
+						if nt.fields == nil || nt.fields["Name"].k == nil || nt.fields["Accidental"].k == nil || r.tuple[1].k == nil {
+							return "", 0, false
+						}
+						gn, _ := constant.Int64Val(nt.fields["Name"].k)
+						ga, _ := constant.Int64Val(nt.fields["Accidental"].k)
+						goct, _ := constant.Int64Val(r.tuple[1].k)
+						if nameOf[gn] != wl || accOf[ga] != wa || goct != int64(oct) {
+							return fmt.Sprintf("%s yields %s %s in octave %d, want %s %s in octave %d (pitch %d)", what, nameOf[gn], accOf[ga], goct, wl, wa, oct, sum), n, true
+						}
+					}
+				}
+			}
+		}
+	}
+	return "", n, true
+}
+
+// checkYamlNodesAreStrings: a yaml.Node built by hand is either a container (Kind set to a mapping / sequence / document
+// constant) or a string scalar made with SetString (which tags it !!str). A bare scalar node is written plain whenever its
+// text can be, also when the plain text reads back as null, a number or a boolean.
+func (c *Ctx) checkYamlNodesAreStrings() {
+	for _, fn := range c.srcFuncs() {
+		allInstrs(fn, func(in ssa.Instruction) {
+			al, ok := in.(*ssa.Alloc)
+			if !ok || typeName(al.Type()) != "gopkg.in/yaml.v3.Node" {
+				return
+			}
+			if _, isPtrToNode := al.Type().Underlying().(*types.Pointer).Elem().(*types.Named); !isPtrToNode {
+				return
+			}
+			c.site(1)
+			container, str := false, false
+			for _, ref := range *al.Referrers() {
+				switch x := ref.(type) {
+				case *ssa.FieldAddr:
+					fnm, _, _ := fieldName(x)
+					for _, rr := range *x.Referrers() {
+						st, ok := rr.(*ssa.Store)
+						if !ok {
+							continue
+						}
+						if k, ok := constInt(st.Val); ok && fnm == "Kind" && k != 8 { // anything but yaml.ScalarNode
+							container = true
+						}
+						if k, ok := st.Val.(*ssa.Const); ok && fnm == "Tag" && k.Value != nil && k.Value.ExactString() == `"!!str"` {
+							str = true
+						}
+					}
+				case *ssa.Call:
+					if calleeName(&x.Call) == "gopkg.in/yaml.v3.Node.SetString" && len(x.Call.Args) > 0 && x.Call.Args[0] == ssa.Value(al) {
+						str = true
+					}
+				}
+			}
+			c.check(container || str, "yaml-node|"+c.ownerName(fn), c.pos(al.Pos()), fname(fn), "a hand-built node is a container or a !!str scalar", fname(fn)+": a yaml.Node is built as a bare scalar (no SetString, no !!str tag): a text such as `null`, `~`, `12` or `true` is printed plain and read back as something else (an empty text, say)")
+		})
+	}
+}
+
+// checkDecodersKeepWhatTheyRead: every UnmarshalYAML of the repository reads its node once - one parse of value.Value or
+// one value.Decode into a local - and keeps exactly what that gave (through conversions and wrapping only): nothing else
+// looks at the node's text and nothing writes to the decoded local.
+func (c *Ctx) checkDecodersKeepWhatTheyRead() {
+	for _, fn := range c.srcFuncs() {
+		if fn.Name() != "UnmarshalYAML" || fn.Signature.Recv() == nil || len(fn.Params) != 2 || typeName(fn.Params[1].Type()) != "gopkg.in/yaml.v3.Node" {
+			continue
+		}
+		c.site(1)
+		key := "decode|" + typeName(fn.Signature.Recv().Type())
+		node := fn.Params[1]
+		reads := 0
+		problem := ""
+		var decoded *ssa.Alloc
+		for _, ref := range *node.Referrers() {
+			switch x := ref.(type) {
+			case *ssa.FieldAddr:
+				fnm, _, _ := fieldName(x)
+				if fnm != "Value" {
+					continue // position, tag, ...: not the text
+				}
+				for _, rr := range *x.Referrers() {
+					if ld, ok := rr.(*ssa.UnOp); ok && ld.Op == token.MUL {
+						for _, use := range *ld.Referrers() {
+							if _, isDbg := use.(*ssa.DebugRef); isDbg {
+								continue
+							}
+							// handing the text to a logger or into an error message is not reading it
+							if !dataReaches(ld, func(r ssa.Instruction) bool {
+								ci, ok := r.(ssa.CallInstruction)
+								return ok && r == use && !diagnosticCallee(calleeName(ci.Common())) && calleeName(ci.Common()) != "fmt.Errorf"
+							}) {
+								if _, isCall := use.(ssa.CallInstruction); isCall {
+									continue
+								}
+								if _, isBox := use.(*ssa.MakeInterface); isBox {
+									continue
+								}
+							}
+							reads++
+						}
+					}
+				}
+			case *ssa.Call:
+				if calleeName(&x.Call) == "gopkg.in/yaml.v3.Node.Decode" {
+					reads++
+					if mi, ok := x.Call.Args[1].(*ssa.MakeInterface); ok {
+						decoded, _ = mi.X.(*ssa.Alloc)
+					}
+				}
+			}
+		}
+		if reads != 1 {
+			problem = fmt.Sprintf("the node's text is looked at %d times (one parse or one Decode is what the printers answer to)", reads)
+		}
+		if decoded != nil {
+			for _, ref := range *decoded.Referrers() {
+				switch x := ref.(type) {
+				case *ssa.Store:
+					if x.Addr == ssa.Value(decoded) {
+						problem = "the decoded value is overwritten before it is kept"
+					}
+				case *ssa.FieldAddr:
+					if !readOnlyAddr(x, 0) {
+						problem = "a field of the decoded value is rewritten before it is kept (a printed 2/1, which prints as `2`, would read back as something else)"
+					}
+				}
+			}
+		}
+		c.check(problem == "", key, c.pos(fn.Pos()), fname(fn), "reads the node once and keeps what that gave", fname(fn)+": "+problem)
+	}
 }
